@@ -2411,9 +2411,15 @@ func (a *Agent) handleControlRequest(peerID identity.AgentID, frame *protocol.Fr
 			return
 		}
 
-		// Track this forwarded request so we can route the response back
+		// Track this forwarded request so we can route the response back.
+		// Every agent numbers its own requests from 1, so the requester's ID
+		// is only unique per source peer: forward the request under an ID
+		// from our own counter (shared with the requests we originate) and
+		// remember the original ID for the way back.
 		a.controlMu.Lock()
-		a.forwardedControl[req.RequestID] = &forwardedControlRequest{
+		a.nextControlID++
+		fwdRequestID := a.nextControlID
+		a.forwardedControl[fwdRequestID] = &forwardedControlRequest{
 			RequestID:  req.RequestID,
 			SourcePeer: peerID,
 			CreatedAt:  time.Now(),
@@ -2428,7 +2434,7 @@ func (a *Agent) handleControlRequest(peerID identity.AgentID, frame *protocol.Fr
 			"source_peer", peerID.ShortString())
 
 		fwdReq := &protocol.ControlRequest{
-			RequestID:   req.RequestID,
+			RequestID:   fwdRequestID,
 			ControlType: req.ControlType,
 			TargetAgent: req.TargetAgent,
 			Path:        remainingPath,
@@ -2445,7 +2451,7 @@ func (a *Agent) handleControlRequest(peerID identity.AgentID, frame *protocol.Fr
 				logging.KeyPeerID, nextHop.ShortString(),
 				logging.KeyError, err)
 			a.controlMu.Lock()
-			delete(a.forwardedControl, req.RequestID)
+			delete(a.forwardedControl, fwdRequestID)
 			a.controlMu.Unlock()
 			a.sendControlResponse(peerID, req.RequestID, req.ControlType, false, []byte("failed to forward: "+err.Error()))
 		}
@@ -2523,6 +2529,9 @@ func (a *Agent) handleControlResponse(peerID identity.AgentID, frame *protocol.F
 		a.logger.Debug("forwarding control response",
 			"to", forwarded.SourcePeer.ShortString(),
 			"request_id", resp.RequestID)
+
+		// Restore the request ID the source peer used
+		resp.RequestID = forwarded.RequestID
 
 		responseFrame := &protocol.Frame{
 			Type:     protocol.FrameControlResponse,
